@@ -26,7 +26,7 @@ FLOORS = {'quick': {'completeness_evaluations': 3000, 'silent_peers_at_timer': 4
           'thorough': {'completeness_evaluations': 60000, 'silent_peers_at_timer': 1200, 'accuracy_evaluations': 1600,
                        'invalidations': 2000, 'lost_processes_checked': 800, 'peer_state_changes': 60000,
                        'ticks_delivered': 200000}}
-COUNT = {'quick': 720, 'thorough': 9000}
+COUNT = {'quick': 560, 'thorough': 9000}
 BUDGET_S = {'quick': 55, 'thorough': 540}
 
 KNOBS = {'n_min': 2, 'n_max': 5, 'late_p': 0.3, 'trigger_p': 0.3, 'both_p': 0.4,
